@@ -174,7 +174,7 @@ class gre (packet_base):
         if (self.routing is not None) or (self.csum is not None):
             # If we're doing checksum computation, insert a 0 for now, and
             # we'll fix it later.
-            r += struct.pack("!HH", 0 if self.csum is True else self.csum,
+            r += struct.pack("!HH", 0 if self.csum in (True,None) else self.csum,
                              self.route_offset)
 
         if self.key is not None:
@@ -189,9 +189,9 @@ class gre (packet_base):
                 if isinstance(ro, bytes):
                     sl = 0
                     r += ro
-                else: # Better be a sequence...
-                    af,so,sl = ro
-                    r += struct.pack("!HBB", af, so, sl)
+                else: # Better be a sequence (the 4-tuples parse() makes)...
+                    af,so,sl = ro[:3]
+                    r += struct.pack("!HBB", af, so, sl) + b''.join(ro[3:4])
             if sl != 0:
                 self.msg('warning GRE routing did not end with empty entry')
 
